@@ -7,7 +7,7 @@ PROP=$1; NAME=$2; W=$3; PATCH=$(readlink -f "$4"); DEMO=$(readlink -f "$5"); CHK
 export GOFLAGS=-mod=mod GOPROXY=off GOSUMDB=off GOTOOLCHAIN=local
 OUT=/verif/seeded/$NAME; mkdir -p "$OUT"
 git -C "$W" checkout -q -- . ; git -C "$W" clean -fdq
-demo() { if [ -f "$DEMO/run.sh" ]; then (cd "$DEMO" && timeout 300 sh ./run.sh >/tmp/keep_seed_demo.$$ 2>&1; echo $?); return; fi; (cd "$DEMO" && cp "$W/go.sum" . 2>/dev/null; timeout 300 go test -count=1 $(cat "$DEMO/GOTESTFLAGS" 2>/dev/null) ./... >/tmp/keep_seed_demo.$$ 2>&1; echo $?); }
+demo() { if [ -f "$DEMO/run.sh" ]; then (cd "$DEMO" && timeout 300 sh ./run.sh "$W" >/tmp/keep_seed_demo.$$ 2>&1; echo $?); return; fi; (cd "$DEMO" && cp "$W/go.sum" . 2>/dev/null; timeout 300 go test -count=1 $(cat "$DEMO/GOTESTFLAGS" 2>/dev/null) ./... >/tmp/keep_seed_demo.$$ 2>&1; echo $?); }
 CLEAN_DEMO=$(demo)
 git -C "$W" apply "$PATCH" || { echo "patch does not apply"; exit 2; }
 (cd "$W" && go build ./... >/tmp/keep_seed_build.$$ 2>&1); BUILD=$?
